@@ -234,7 +234,8 @@ example : docOK env0 (.obj ["a", "b", "c"] [.arr [.null, .num "1.50", .arr []], 
 /-- `ImpliedType` never panics, and the kind of its result is the kind of the document:
 null ↦ the placeholder, bool/number/string ↦ the primitive type, an array ↦ a tuple with
 one element type per member (the implied type of that member), an object ↦ an object
-type without optional attributes. -/
+type without optional attributes whose attribute names are exactly the normal forms of the
+document's keys, strictly ascending.  (`ks.length = vs.length` holds for every lexed tree.) -/
 theorem implied_type_shape (env : JEnv) (j : Json) :
     (∀ w, impliedType env j ≠ .panic w) ∧
     (∀ t, impliedType env j = .ok t →
@@ -245,7 +246,8 @@ theorem implied_type_shape (env : JEnv) (j : Json) :
       | .str _ => t = .string
       | .arr xs => ∃ ts, t = .tuple ts ∧ ts.length = xs.length ∧
           ∀ i (h : i < xs.length) (h' : i < ts.length), impliedType env xs[i] = .ok ts[i]
-      | .obj _ _ => ∃ ns ts, t = .object ns ts (ns.map fun _ => false)) := by
+      | .obj ks vs => ks.length = vs.length → ∃ ns ts, t = .object ns ts (ns.map fun _ => false) ∧
+          strictAsc ns = true ∧ ns.length = ts.length ∧ ∀ x, x ∈ ns ↔ x ∈ ks.map env.norm) := by
   refine ⟨implied_no_panic env j, ?_⟩
   intro t ht
   cases j with
@@ -261,14 +263,7 @@ theorem implied_type_shape (env : JEnv) (j : Json) :
       obtain ⟨hl, hi⟩ := impliedAll_length env xs ts h
       exact ⟨ts, ht.symm, hl, hi⟩
     | _ => simp [h, Res.map] at ht
-  | obj ks vs =>
-    simp only [impliedType] at ht
-    split at ht
-    · split at ht
-      · simp at ht
-      · simp at ht; exact ⟨_, _, ht.symm⟩
-    · rename_i r hr
-      cases hrr : impliedMembers env ks vs [] [] <;> simp_all [errOf]
+  | obj ks vs => exact fun hl => implied_object_names env ks vs t hl ht
 
 /-- for the documents of `doc_roundtrip_partial` the implied type is the structural type -/
 theorem implied_type_structural (env : JEnv) (d : Json) (h : docOK env d = true) :
@@ -321,6 +316,15 @@ def sampleT : Ty :=
 example : rtHyps env0 sampleV sampleT = true ∧ setFree sampleV.ty = true ∧
     exact sampleT sampleV.ty sampleV.v = true := by decide +kernel
 example : rtCheck env0 true sampleV sampleT = true := by decide +kernel
+/-- `NumOK` holds for numbers of the classes the theorems are meant for: int64 limits,
+uint64 max, a float64 fraction, the 512-bit parse of 0.1, negative zero -/
+example :
+    numOK (Num.ofInt 9223372036854775807 64) = true ∧ numOK (Num.ofInt (-9223372036854775808) 64) = true ∧
+    numOK (Num.ofNat 18446744073709551615 64) = true ∧ numOK (.fin false 3 (-2) 53) = true ∧
+    numOK (.fin true 0 0 64) = true ∧
+    (match Num.parse512 "0.1" with
+     | .ok a => numOK a
+     | _ => false) = true := by decide +kernel
 
 end C15
 end CtyModel
